@@ -321,7 +321,7 @@ def classify(res, rundir):
         return "infra", [], "time budget exhausted"
     if "cannot allocate memory" in out or "out of memory" in out.lower() and "fatal error: runtime: out of memory" in out:
         return "infra", [], "out of memory"
-    if re.search(r"^(--- FAIL|FAIL|panic:|fatal error:)", out, re.M):
+    if re.search(r"^(--- FAIL|FAIL|panic:|fatal error:)", out, re.M) or "WARNING: DATA RACE" in out:
         return "crash", [], ""
     return "infra", [], "worker exited with status %s without a verdict" % res["rc"]
 
@@ -530,7 +530,11 @@ def main():
             infra.append("evidence file does not validate")
     for line in dict.fromkeys(known_lines):
         print(line)
+    seen_dest = set()
     for dest, msg in violations:
+        if dest in seen_dest:
+            continue
+        seen_dest.add(dest)
         print("VIOLATION property=%s replay=%s" % (pid, dest))
         log("  >> " + msg[:600].replace("\n", "\n     "))
     log("%s %s: %d evaluations, %d distinct non-trivial, %d violations, %.1fs" % (pid, tier, evaluations, distinct, len(violations), wall))
